@@ -207,7 +207,16 @@ def go_build(module, binary):
     src = os.path.join(VERIF, "harness", module)
     os.makedirs(BIN, exist_ok=True)
     with Lock("go-" + module):
-        # go.sum of the corresponding /repo module (offline, no sumdb)
+        # go.sum of the corresponding /repo module(s) (offline, no sumdb): harness/<module>/gosum.from lists the files
+        gs = os.path.join(src, "gosum.from")
+        if os.path.exists(gs):
+            lines = set()
+            for pth in open(gs).read().split():
+                pth = pth.replace("/repo", REPO, 1) if pth.startswith("/repo") else pth
+                if os.path.exists(pth):
+                    lines.update(open(pth).read().splitlines())
+            with open(os.path.join(src, "go.sum"), "w") as f:
+                f.write("\n".join(sorted(lines)) + "\n")
         rc, out, err = sh("go build -tags verif -o %s ." % os.path.join(BIN, binary), cwd=src, env=GOENV, timeout=1800)
     return rc == 0, out + err
 
